@@ -540,6 +540,11 @@ def gateTOp (g : AGate) : Option TOp :=
         | .lit s => some s.toList
         | _ => none }
 
+/-- the same, with the parameter as the exporter `q` prints it (`{p:.2f}` under `qasmParam2f`) -/
+def gateTOpQ (q : Quirks) (fv : FloatOf) (g : AGate) : Option TOp :=
+  (kind g.cls).map fun (b, n) =>
+    { base := b, nctrl := n, wires := g.wires, ptext := qasmParamText q fv g.param }
+
 /-! ## well-formedness and triggers -/
 
 /-- a token of the emitted text: non-empty, no blank, newline or parenthesis -/
@@ -605,6 +610,10 @@ def qasmReadable (q : Quirks) (fv : FloatOf) (c : Circ) : Bool :=
   | .error _ => false
 
 /-! ## domain of the QASM read-back: gate set and names -/
+
+/-- the QASM exporter with the formals and the parameter test repaired (both fixed in the code);
+`qasmParam2f` is left free, so `q` ranges over the fully repaired model and the code as it is -/
+def QasmRepaired (q : Quirks) : Prop := q.qasmFormalsFromKeys = false ∧ q.exportParamTruthy = false
 
 /-- gate classes the QASM text has a reading for: nop gates (no line) and (controlled) library
 gates; excludes only an `MCtrl` of something that is not one of the library's nine base gates -/
